@@ -185,3 +185,27 @@ def can_contain(items: T.Sequence[T.Any], ch: str) -> bool:
                 seen.add(item)
                 todo.append(item)
     return False
+
+
+def can_end_with(items: T.Sequence[T.Any], ch: str) -> bool:
+    """Can a word of L(items) end with the character ch?"""
+    nfa = nfa_of_items(items)
+    chars: T.Set[str] = set(rx.BASE_SAMPLES) | {ch}
+    rx._collect_chars(items, chars)
+    alpha = sorted(chars)
+    start = (nfa.closure([nfa.start]), False)
+    seen = {start}
+    todo = [start]
+    while todo:
+        st, last = todo.pop()
+        if last and nfa.accept in st:
+            return True
+        for c in alpha:
+            nx = nfa.step(st, c)
+            if not nx:
+                continue
+            item = (nx, c == ch)
+            if item not in seen:
+                seen.add(item)
+                todo.append(item)
+    return False
